@@ -111,6 +111,27 @@ impl HeapBuffer {
         Ok(HeapBuffer { ptr, len })
     }
 
+    /// Creates a buffer holding `text` with exactly `capacity` bytes of capacity.
+    ///
+    /// `capacity` must be greater than or equal to `text.len()`.
+    pub(super) fn with_exact_capacity(text: &str, capacity: usize) -> Result<Self, ReserveError> {
+        debug_assert!(text.len() <= capacity);
+
+        let mut buf = HeapBuffer::with_capacity(capacity)?;
+
+        // SAFETY:
+        // - src (`text`) and dst (`buf.ptr`) is valid for `text.len()` bytes because `buf` was
+        //   allocated with `capacity` bytes, which is greater than or equal to `text.len()`.
+        // - src and dst don't overlap because we allocated dst just now.
+        // - `buf` is unique, and `text.len()` bytes of valid UTF-8 are initialized.
+        unsafe {
+            ptr::copy_nonoverlapping(text.as_ptr(), buf.ptr.as_ptr(), text.len());
+            buf.set_len(text.len());
+        }
+
+        Ok(buf)
+    }
+
     pub(super) fn capacity(&self) -> usize {
         self.header().capacity.as_usize()
     }
